@@ -106,3 +106,67 @@ class Squeeze1(RegressorMixin, SkBase):
         if out.ndim == 1 and out.shape[0] == 1:
             return out[0]
         return out
+
+
+# ---------------------------------------------------------------------------------
+# recording forecasters (subclasses of the real ones)
+# ---------------------------------------------------------------------------------
+_fc_classes = {}
+
+
+def _idx_range(obj):
+    if obj is None or len(obj) == 0:
+        return None
+    return [int(obj.index[0]), int(obj.index[-1]), int(len(obj))]
+
+
+def spy_forecaster_class(kind="naive"):
+    """Subclass of the real NaiveForecaster / PolynomialTrendForecaster that logs what it is given."""
+    if kind in _fc_classes:
+        return _fc_classes[kind]
+    if kind == "naive":
+        from sktime.forecasting.naive import NaiveForecaster as Base
+
+        class SpyNaive(Base):
+            def __init__(self, strategy="last", window_length=None, sp=1, log_id=None, name="spy"):
+                super(SpyNaive, self).__init__(strategy=strategy, window_length=window_length, sp=sp)
+                self.log_id = log_id
+                self.name = name
+        cls = SpyNaive
+    else:
+        from sktime.forecasting.trend import PolynomialTrendForecaster as Base
+
+        class SpyPoly(Base):
+            def __init__(self, regressor=None, degree=1, with_intercept=True, log_id=None, name="spy"):
+                super(SpyPoly, self).__init__(regressor=regressor, degree=degree, with_intercept=with_intercept)
+                self.log_id = log_id
+                self.name = name
+        cls = SpyPoly
+
+    def fit(self, y, X=None, fh=None):
+        LOGS[self.log_id].append({"op": "fit", "name": self.name, "obj": id(self), "y": _idx_range(y), "X": _idx_range(X),
+                                  "y_values": np.asarray(y, dtype=float).copy(), "y_index": list(y.index),
+                                  "fh": None if fh is None else [int(v) for v in (fh.to_pandas() if hasattr(fh, "to_pandas") else np.atleast_1d(fh))],
+                                  "fh_relative": getattr(fh, "is_relative", True), "in_update": getattr(self, "_in_update", False)})
+        return Base.fit(self, y, X, fh) if X is None or kind == "naive" else Base.fit(self, y, None, fh)
+
+    def update(self, y, X=None, update_params=True):
+        LOGS[self.log_id].append({"op": "update", "name": self.name, "obj": id(self), "y": _idx_range(y), "X": _idx_range(X),
+                                  "y_values": np.asarray(y, dtype=float).copy(), "y_index": list(y.index), "update_params": update_params})
+        self._in_update = True
+        try:
+            return Base.update(self, y, X if kind == "naive" else None, update_params=update_params)
+        finally:
+            self._in_update = False
+
+    def predict(self, fh=None, X=None, return_pred_int=False, alpha=0.05):
+        out = Base.predict(self, fh, X if kind == "naive" else None, return_pred_int=return_pred_int, alpha=alpha)
+        LOGS[self.log_id].append({"op": "predict", "name": self.name, "obj": id(self), "cutoff": int(self.cutoff),
+                                  "index": [int(v) for v in out.index], "values": np.asarray(out, dtype=float).copy()})
+        return out
+
+    cls.fit = fit
+    cls.update = update
+    cls.predict = predict
+    _fc_classes[kind] = cls
+    return cls
